@@ -401,6 +401,8 @@ func (r *RowCache) IndexExists(row model.Model) error {
 		return nil
 	}
 	uuid := field.(string)
+	r.mutex.RLock()
+	defer r.mutex.RUnlock()
 	for _, indexSpec := range r.indexSpecs {
 		if !indexSpec.isSchemaIndex() {
 			// Given the ordered indexSpecs, we can break here if we reach the
